@@ -50,37 +50,50 @@ def values(prog, rep):
     given = P("given")
     CP = ("attr", SELF, "conditional_parameters")
     FP = ("attr", SELF, "fixed_parameters")
+    from vstat.terms import guarded_alts
     ret = [s for s in cfg.all_stmts() if isinstance(s, ast.Return)]
     rt = b.term(ret[-1].value, ret[-1])
+    # entries (key, value, literals, site): from stores into the returned dict, or from a returned dict comprehension
+    entries = []
+    fresh = False
+    if rt[0] == "comp" and rt[1] == "dict" and rt[2][0] == "tuple" and len(rt[2][1]) == 2:
+        fresh = True
+        key, val = rt[2][1]
+        if rt[4] != ("attr", SELF, "param_names") or rt[5]:
+            rep.fail("C08.values", f"{q}:names", fn.where(ret[-1]), f"the parameter dict must be built for every name of self.param_names; iterates {show(rt[4])[:80]}")
+        for lits, v in guarded_alts(val):
+            entries.append((key, v, tuple(lits), ret[-1]))
+    else:
+        fresh = rt == ("dict", ())
+        for st in cfg.all_stmts():
+            if isinstance(st, ast.Assign) and isinstance(st.targets[0], ast.Subscript):
+                tg = st.targets[0]
+                if b.term(tg.value, st) != rt:
+                    continue
+                key = b.term(tg.slice, st)
+                for lits, v in guarded_alts(b.term(st.value, st)):
+                    entries.append((key, v, tuple(pcs.of(st)) + tuple(lits), st))
     dep = fix = None
-    for st in cfg.all_stmts():
-        if isinstance(st, ast.Assign) and isinstance(st.targets[0], ast.Subscript):
-            tg = st.targets[0]
-            base = b.term(tg.value, st)
-            key = b.term(tg.slice, st)
-            val = b.term(st.value, st)
-            pc = pcs.of(st)
-            if base != rt:
-                continue
-            key_ok = key[0] == "sub" and key[1] == ("attr", SELF, "param_names") and key[2][0] == "idx"
-            is_dep = [l for l in pc if l in (("cmp", "in", key, CP), ("cmp", "in", key, ("call", ("attr", CP, "keys"), (), ())))]
-            is_fix = [l for l in pc if l in (("not", ("cmp", "in", key, CP)), ("not", ("cmp", "in", key, ("call", ("attr", CP, "keys"), (), ()))))]
-            if val[0] == "call":
-                ok = key_ok and bool(is_dep) and val == ("call", ("sub", CP, key), (given,), ())
-                dep = st
-                rep.check(ok, "C08.values", f"{q}:dependent", fn.where(st), "param_values[K] = conditional_parameters[K](given) for K dependent",
-                          f"a dependent parameter must be conditional_parameters[K](given) with the same K and only given as argument, on the 'K in conditional_parameters' branch; found {show(val)[:120]} under {[show(l)[:50] for l in pc]}")
-            else:
-                ok = key_ok and bool(is_fix) and val == ("sub", FP, key)
-                fix = st
-                rep.check(ok, "C08.values", f"{q}:fixed", fn.where(st), "param_values[K] = fixed_parameters[K] otherwise",
-                          f"a non-dependent parameter must be fixed_parameters[K] with the same K; found {show(val)[:120]} under {[show(l)[:50] for l in pc]}")
+    for key, val, pc, st in entries:
+        key_ok = key[0] == "sub" and key[1] == ("attr", SELF, "param_names") and key[2][0] == "idx"
+        is_dep = [l for l in pc if l in (("cmp", "in", key, CP), ("cmp", "in", key, ("call", ("attr", CP, "keys"), (), ())))]
+        is_fix = [l for l in pc if l in (("not", ("cmp", "in", key, CP)), ("not", ("cmp", "in", key, ("call", ("attr", CP, "keys"), (), ()))))]
+        if val[0] == "call":
+            ok = key_ok and bool(is_dep) and val == ("call", ("sub", CP, key), (given,), ())
+            dep = st
+            rep.check(ok, "C08.values", f"{q}:dependent", fn.where(st), "param_values[K] = conditional_parameters[K](given) for K dependent",
+                      f"a dependent parameter must be conditional_parameters[K](given) with the same K and only given as argument, on the 'K in conditional_parameters' branch; found {show(val)[:120]} under {[show(l)[:50] for l in pc]}")
+        else:
+            ok = key_ok and bool(is_fix) and val == ("sub", FP, key)
+            fix = st
+            rep.check(ok, "C08.values", f"{q}:fixed", fn.where(st), "param_values[K] = fixed_parameters[K] otherwise",
+                      f"a non-dependent parameter must be fixed_parameters[K] with the same K; found {show(val)[:120]} under {[show(l)[:50] for l in pc]}")
     if dep is None:
         rep.fail("C08.values", f"{q}:dependent", fn.where(), "no store of a dependence-function value found")
     if fix is None:
         rep.fail("C08.values", f"{q}:fixed", fn.where(), "no store of a fixed value found")
-    rep.check(rt == ("dict", ()), "C08.values", f"{q}:result", fn.where(ret[-1]), "returns the freshly built dict",
-              f"must return the dict built in this call (a fresh {{}}), found {show(rt)[:80]}")
+    rep.check(fresh, "C08.values", f"{q}:result", fn.where(ret[-1]), "returns the freshly built dict",
+              f"must return the dict built in this call (a fresh dict), found {show(rt)[:80]}")
     # no branching on given anywhere in the conditional distribution's evaluation methods
     bad = []
     for name in ("_get_param_values", "pdf", "cdf", "icdf", "draw_sample"):
